@@ -197,6 +197,11 @@ func analyseStd(path, name string, add func(id, s string)) int {
 		return 0
 	}
 	s := string(b)
+	// the pool's watchdog ends an overdue worker with SIGQUIT: the Go runtime's goroutine dump (to the end
+	// of the stream) is the harness's doing, not output of a script
+	if i := strings.Index(s, "SIGQUIT: quit\nPC="); i >= 0 {
+		s = s[:i]
+	}
 	idx := stdMarkRe.FindAllStringSubmatchIndex(s, -1)
 	prev := 0
 	cur := ""
